@@ -174,9 +174,11 @@ CLAIMED = {
                  'depths on both chains (ancestors of the target, ancestors of the current state) it also decides: slot k holds the k-th ancestor of the '
                  'target whenever it is entered; every EXIT goes to the next state of the active chain (none skipped/repeated/foreign); where trans_ '
                  'returns, exits stopped and entries start at one and the same tested common state (parents for a self transition); no raise statement '
-                 'is reachable by a protocol-following chart. That the tested common state is the *innermost* one for every (S,T) is NOT decided.',
+                 'is reachable by a protocol-following chart; the tested common state is the innermost one (at every passing common-ancestor test the states '
+                 'one level below on both sides were compared and differ, which in a tree excludes any lower common ancestor); a state given up as a '
+                 'candidate was compared with every ancestor of the target up to the outermost state. Termination of the search is argued from these, not decided.',
         'note': 'Trusted base: handler protocol H1-H4 (evidence lists it); the thorough tier\'s census checks the repository\'s own handlers against it. '
-                'Functional correctness of the LCA search over a runtime tree is outside this family.',
+                'The obligations are safety facts of the code for every chart that follows H1-H4; liveness (the climb terminates) is argued from them for finite charts.',
         'technique': SA + 'relational abstract interpretation (difference-bound matrices, flag-partitioned, delayed widening) with ghost variables for buffer content, chain depths, exit count and common-ancestor witness + CFG path/guard rules over the 19 handler-call sites',
     },
     'C02': {
